@@ -43,7 +43,7 @@ LEVEL_TEXT = ("Machine-checked theorems (Coq 8.16, closed under the global conte
               "contiguous piece of a token / declared value / action literal.  (b) The un-parser theorem for the conventional "
               "class (boolean predicates conv on the built command and wf_items/wf_inv on the invocation: flags and options by "
               "long name or alias in the spellings --n, --n=v, --n v1..vk, short clusters -abc, -abcoV, -abco=V, -abco v1..vk, runs "
-              "of positional values, subcommands by name or alias to any depth): the token loop on render(items) ++ rest equals "
+              "of positional values, -- and the values after it, subcommands by name or alias to any depth): the token loop on render(items) ++ rest equals "
               "the loop on rest from the state the items denote (each token consumed exactly once as the item part it was "
               "rendered from; an equality of results, rejected lines included); all spellings denote the same occurrence list; "
               "get_matches_with / _do_parse / try_get_matches_from on the rendered tree equal the tree's meaning (for trees "
@@ -52,7 +52,7 @@ LEVEL_TEXT = ("Machine-checked theorems (Coq 8.16, closed under the global conte
               "invented or moved; split only by the declared delimiter); the subcommand chain is kept; the reported indices are "
               "the closed form denote_idx (one per stored value, one for an option name given by flag) and the index events of a "
               "level strictly increase in argv order.  Non-vacuity examples exercise every item kind and spelling.")
-LEVEL_NOTE = ("Outside the conventional class (-- and trailing values, last, trailing_var_arg, terminators, require_equals, hyphen "
+LEVEL_NOTE = ("Outside the conventional class (-- directly after an open multi-valued positional run, dont_delimit_trailing_values, last, trailing_var_arg, terminators, require_equals, hyphen "
               "values, low-index multiples, allow_missing_positional, flag/external subcommands, ignore_errors, "
               "args_conflicts_with_subcommands, non-ASCII short names) conservation is checked by the python un-parser / model "
               "comparison only; conv is stated on the built command (decidable by computation); the composition with the global-"
@@ -417,8 +417,8 @@ def gen_unparse(rng, n, stats):
 
 
 def coq_example_cases():
-    """The two invocations of coq/theories/ParseProofs/UnparseExamples.v (pinned by C02_unparse_nonvacuous,
-    C02_indices_nonvacuous, C02_unparse_tree_nonvacuous) as un-parser cases: the expectations below are the values
+    """The invocations of coq/theories/ParseProofs/UnparseExamples.v (pinned by C02_unparse_nonvacuous,
+    C02_indices_nonvacuous, C02_unparse_tree_nonvacuous, C02_unparse_trail_nonvacuous) as un-parser cases: the expectations below are the values
     the Coq theorems state for the model; the corpus file corpus/C02/unparse.coq_examples.cases (written once with
     `python3 -c "from vp.props import c02; print('\\n'.join(c02.coq_example_cases()))"`) makes every run compare
     the real crate with them."""
@@ -452,8 +452,12 @@ def coq_example_cases():
                                       (b"o", {"occ": [[b"A"]], "idx": [4]})]), b"run"),
             (collections.OrderedDict([(b"x", {"occ": [[b"true"]], "idx": [1]}), (b"n", {"occ": [[b"V"]], "idx": [3]}),
                                       (b"f", {"occ": [[b"F"]], "idx": [4]})]), None)]
+    toks3 = [b"--qu", b"--mu", b"A", b"--", b"F", b"-x", b"R"]
+    exp3 = collections.OrderedDict([
+        (b"q", {"occ": [[b"true"]], "idx": [1]}), (b"m", {"occ": [[b"A"]], "idx": [3]}),
+        (b"f", {"occ": [[b"F"]], "idx": [4]}), (b"r", {"occ": [[b"-x", b"R"]], "idx": [5, 6]})])
     out = []
-    for c, toks, lv in ((one, toks1, [(exp1, None)]), (two, toks2, exp2)):
+    for c, toks, lv in ((one, toks1, [(exp1, None)]), (two, toks2, exp2), (one, toks3, [(exp3, None)])):
         argv = [b"p"] + toks
         base = gen_cmd.cmd_sx(c)
         body = base[:-1] + " (x-expect %s %s))" % (guard(base, argv), expect_sx(lv))
